@@ -25,7 +25,7 @@ def obligations():
                                  call='  ' + call, post='\n'.join(post), op=op)
                 obs.append(Ob(id='C04.' + n, props=['C04', 'C02', 'C03', 'C12'], quick_for=['C04'] if (fn == 'collect_garbage' and on in ('', 'f') and fast) else [], tu='kernel', tier='B',
                               roots=[TK + '::collect_garbage', TK + '::enable_deferred_deletion'], harness=mh, stubs=REORDER_STUB,
-                              includes=['wf.h', 'view.h', 'gc_spec.h'], copies=[TK], defines=d, unwind=UW(d), covers=2, timeout=3000,
+                              includes=['wf.h', 'view.h', 'gc_spec.h'], copies=[TK], defines=d, unwind=UW(d), covers=2, timeout=3600, mem_gb=(30 if (on == 'vef' and not fast) else None),      # shift x all incidences: 12 GB is not enough (measured: passes with 30 GB in 34 min)
                               bounds=dict(vertices=2 if not on else 1, edges=2 if not on else 1, faces=2, cells=2, face_valence=2, cell_valence=2, incident_list=2),
                               note='%s with %s deletion, bottom-up kinds: %s; any pattern of pending deletions on any WF state within the bounds' % (fn, 'fast' if fast else 'index-shifting', on or 'none')))
     return obs
